@@ -52,6 +52,8 @@ struct Judge {
                 // "says exactly what was asked": the contents monitors of the other properties are C17 findings in C17's own workloads
                 key = "C17:wire-contents:" + key; prop = "C17";
             }
+            // the sweep bases have no fault-free suffix: of C02's rules only the retransmission rule applies to them
+            if (ctx.prop == "C02" && (sc.family == "idle-sweep" || sc.family == "handler-sweep" || sc.family == "timer-sweep" || sc.family == "idle-base") && prop == "C02" && key != "C02:outstanding-not-retransmitted-on-next-connection") continue;
             std::string replay = "scenario:\n" + sc.describe() + "\nfinding: " + f.what + "\n\nhistory:\n" + ex.world->h.dump(900);
             if (prop == ctx.prop) res.violation(prop, key, f.what + " [family " + sc.family + " seed " + std::to_string(sc.seed) + " index " + std::to_string(sc.index) + "]", replay);
             else if (ctx.args.has("dump-notes")) res.violation(prop, key, f.what, replay);
@@ -1466,6 +1468,9 @@ int run_families(const FamilyCtx& ctx, vu::Result& res) {
         run_sweep(j, T ? 6 : 4, T, T ? std::vector<int>{0, 1, 2, 3} : std::vector<int>{0, 2});
         Knobs k = knobs_for("c02-mix");
         run_mix(j, k, "c02-mix", T ? 60000 : 1500);
+        // a new publish at every handler boundary / idle point of bases with connection losses (for instance between a transport
+        // swap and the resend pass): the outstanding older ones must be on the new connection first
+        run_idle_sweep(j, T ? 20 : 4, T ? 150 : 60, {12}, T ? 400 : 150, {12}, 0);
     } else if (P == "C03") {
         run_sweep(j, T ? 6 : 3, false, {0});
         Knobs k = knobs_for("c03-mix");
